@@ -124,7 +124,13 @@ def map_pat(cx, keys=0, nskeys=(), strs=0, syms=(), entries=(), ors=(), as_=Fals
         binders.append(n)
     if sy:
         p["sgroups"].append([None, sy])
+    seen_pats = set()
     for i, ((q, v), kind) in enumerate(entries):
+        # two binder-less sub-patterns (e.g. `[]` twice) would be a duplicate key of the pattern map
+        # literal, which the reader rejects: not a program
+        if repr(q) in seen_pats:
+            continue
+        seen_pats.add(repr(q))
         if kind == "kw":
             key = KW("k%d" % i)
         elif kind == "nskw":
@@ -472,7 +478,9 @@ def wrap(kind, elems):
 
 
 def distinct_tokens(elems):
-    toks = [repr(K.tmpl_tokens(e)) for e in elems]
+    # lists and vectors with equal elements are equal values (and, since the repair of F-05a, hash
+    # alike): the reader rejects `{[] 1 () 2}` and `#{[] ()}` as duplicate keys, as Clojure does
+    toks = [repr([("(",) if tk == ("[",) else tk for tk in K.tmpl_tokens(e)]) for e in elems]
     return len(set(toks)) == len(toks)
 
 
